@@ -35,6 +35,14 @@ func c18Trees() []*enode {
 			}
 		}
 	}
+	// width pumps: k DISTINCT identifiers in one expression, the first one occurring again at the end in
+	// another letter case; identifiers of k characters occurring twice
+	for _, k := range widthCounts {
+		names := distinctNames(k, 0)
+		out = append(out, wideSum(append(append([]string{}, names...), strings.ToUpper(names[0]), names[k/2])))
+		long := strings.Repeat("n", k-1)
+		out = append(out, eBin("+", eBin("*", eVar(long+"x"), eVar(long+"y")), eBin("-", eVar(long+"x"), eVar(strings.ToUpper(long)+"Y"))))
+	}
 	return out
 }
 
@@ -577,7 +585,7 @@ func init() {
 	fw.Register(&fw.Check{
 		ID:    "C18",
 		Level: "model_checking",
-		Rule: "(a) expression trees with identifiers from {a, A, b, \"a b\", Max, \"Max\", if} in every syntactic position (operand, call argument, call name, index, next to equal string constants), 4 printing styles: VariableNames() vs the variable leaves in order of first occurrence; automatic variables with three pre-populations of the default collection, and the same through the CreateVariables entry point on a caller's collection with automatic variables off; automatic variables off => VAR_NOT_FOUND/FUNC_NOT_FOUND naming the identifier; every call expression with an explicit empty function collection => FUNC_NOT_FOUND; " +
+		Rule: "(a) expression trees with identifiers from {a, A, b, \"a b\", Max, \"Max\", if} in every syntactic position (operand, call argument, call name, index, next to equal string constants), 4 printing styles, plus sums of k distinct identifiers and identifiers of k characters for k up to 129: VariableNames() vs the variable leaves in order of first occurrence; automatic variables with three pre-populations of the default collection, and the same through the CreateVariables entry point on a caller's collection with automatic variables off; automatic variables off => VAR_NOT_FOUND/FUNC_NOT_FOUND naming the identifier; every call expression with an explicit empty function collection => FUNC_NOT_FOUND; " +
 			"(b) every sequence of <=3 (thorough 4) template pieces (all section spellings, text containing the words if/unless): MustacheParser.VariableNames(), default-variable creation and CreateVariables on a caller's map; (c) every history up to the depth bound over 15 operations (incl. a caller writing in place into the value object of the first / last entry) on VariableCollection and FunctionCollection against an ordered-list model (first match wins, case-insensitive); non-trivial = >=2 variables / histories of >=2 steps",
 		Assume: []string{"names differing only in letter case may be merged or reported separately", "Remove(i) with i out of range is not exercised"},
 		Spaces: func(tier string) []fw.Space {
